@@ -177,6 +177,10 @@ class C04(Prop):
         #    (with a star import in the module any name may come from it: pyflyby reports no missing names then, by design)
         if not has_star:
             for n in obs.get("name_errors", []):
+                if n in case["unique"] and _bound_later_read_only_in_functions(text, n):
+                    # the module binds the name itself (later); the premature read sits in a def/lambda body that
+                    # the program happens to call early — not "a name the module reads without binding it"
+                    continue
                 if n in case["unique"]:
                     fails.append(dict(what="NameError for a name with a unique known import when running the result", name=n, **ctx))
         # 2. nothing is guessed: every top-level import that was added is a unique candidate or mandatory
@@ -251,6 +255,46 @@ class C04(Prop):
         acc[k] = acc.get(k, 0) + 1
 
     families = {}
+
+
+def _bound_later_read_only_in_functions(text, name):
+    import ast
+    try:
+        tree = ast.parse(text if text.endswith("\n") else text + "\n")
+    except SyntaxError:
+        return False
+    bind_line = None
+    for st in tree.body:
+        names = []
+        if isinstance(st, ast.Import):
+            names = [(a.asname or a.name.split(".")[0]) for a in st.names]
+        elif isinstance(st, ast.ImportFrom):
+            names = [(a.asname or a.name) for a in st.names]
+        elif isinstance(st, (ast.Assign, ast.AnnAssign, ast.AugAssign)):
+            tg = st.targets if isinstance(st, ast.Assign) else [st.target]
+            names = [t.id for t in tg if isinstance(t, ast.Name)]
+        elif isinstance(st, (ast.FunctionDef, ast.AsyncFunctionDef, ast.ClassDef)):
+            names = [st.name]
+        if name in names:
+            bind_line = st.lineno
+            break
+    if bind_line is None:
+        return False
+
+    def module_level_loads(node):
+        for ch in ast.iter_child_nodes(node):
+            if isinstance(ch, (ast.Lambda,)):
+                for d in ch.args.defaults + [k for k in ch.args.kw_defaults if k]:
+                    yield from module_level_loads(d)
+                continue
+            if isinstance(ch, (ast.FunctionDef, ast.AsyncFunctionDef)):
+                for d in ch.decorator_list + ch.args.defaults + [k for k in ch.args.kw_defaults if k]:
+                    yield from module_level_loads(d)
+                continue
+            if isinstance(ch, ast.Name) and isinstance(ch.ctx, ast.Load) and ch.id == name:
+                yield ch.lineno
+            yield from module_level_loads(ch)
+    return all(ln >= bind_line for ln in module_level_loads(tree))
 
 
 PROP = C04()
